@@ -287,6 +287,13 @@ func init() {
 			for _, s := range scs {
 				s.Ref = evalProgram(s.Prog, s.Script, s.Input)
 				us = append(us, scenarioUnit(s, exploreOpts{bound: tierBound(tier, 1, 2), menu: menuTSE, cancelMS: -1, cancelAnywhere: true}, oracleC06, oracleC03cancel, oracleC05))
+				// quick tier: the cancel plus one more deviation for the one-step programs (windows between two
+				// checks of one step need the cancel and a thread switch)
+				if tier != "thorough" && strings.HasPrefix(s.Class, "single") {
+					s3 := *s
+					s3.Name = s.Name + "/bound2"
+					us = append(us, scenarioUnit(&s3, exploreOpts{bound: 2, menu: menuTSE, cancelMS: -1, cancelAnywhere: true, maxExecs: 60000}, oracleC06, oracleC03cancel, oracleC05))
+				}
 				for _, at := range []int64{7, 25} {
 					s2 := *s
 					s2.Name = fmt.Sprintf("%s/cancel@%dms", s.Name, at)
